@@ -16,7 +16,7 @@
    compares this reading with the real bison parser.
 
    Environment oracles (Section variables): host-range expansion (hostlist.c: property C14), regcomp, getaddrinfo,
-   stat.  No proofs in this file. *)
+   stat, and whether errno holds a stale ERANGE at a strtol conversion (F30, not applied).  No proofs in this file. *)
 From Coq Require Import List NArith ZArith Bool.
 From PM Require Import Base.Bytes Base.Outcome Gen.GenLex.
 Import ListNotations.
@@ -49,6 +49,7 @@ Definition S_NONODES : nat := 22.
 Definition S_DUP_NODE : nat := 23.
 Definition S_BAD_ALIAS : nat := 24.
 Definition S_TCPWRAP_BARE : nat := 25.   (* warning with file::line, then err_exit without *)
+Definition S_DUP_PLUGNAME : nat := 26.   (* string_list: a plug name listed twice in `plug name { .. }` (F34) *)
 (* without file::line *)
 Definition S_INCL_DEPTH : nat := 40.     (* Includes nested too deeply *)
 Definition S_INCL_OPEN : nat := 41.      (* fopen of an include file failed *)
@@ -513,6 +514,8 @@ Section Load.
   Variable regcomp_ok : bool -> text -> bool.           (* regcomp after xregex_compile's \r \n substitution *)
   Variable resolves : text -> text -> bool.             (* getaddrinfo(host, port) succeeds *)
   Variable is_chardev : text -> bool.                   (* stat() ok and st_mode & S_IFCHR *)
+  Variable stale_erange : text -> bool.                 (* errno already holds ERANGE when this text is handed to
+                                                           _strtolong: environment non-determinism, see do_strtolong *)
   Variable lend : lex_end.                              (* how the token stream ends *)
 
   Definition fail {A} (c : cfg) (s : nat) : outcome A := Exit 1 (if c_warned c then s + WARNED else s)%nat.
@@ -560,11 +563,19 @@ Section Load.
     | TimeUB => MemErr S_UB_FLOATCAST
     end.
 
+  (* _strtolong: `(val == LONG_MIN || val == LONG_MAX) && errno == ERANGE` is evaluated WITHOUT clearing errno before
+     strtol() unless GenLex.errno_cleared_strtol (fix F30, not applied).  errno may still hold ERANGE from an earlier
+     strtod() underflow (a time value below the smallest double) and every successful libc call in between is free
+     to keep or overwrite it; so for the two exact values the refusal depends on the environment: oracle
+     [stale_erange].  (_strtodouble has the same shape, but strtod returns +-HUGE_VAL only when it sets ERANGE itself:
+     number tokens are digits and dots, never "inf"; a stale errno cannot change its answer.) *)
   Definition do_strtolong (c : cfg) (s : text) : outcome Z :=
     match strtol0 s with
     | LNoConv => fail c S_LONG_PARSE
     | LRange => fail c S_LONG_RANGE
-    | LVal v => Ok v
+    | LVal v =>
+        if negb errno_cleared_strtol && stale_erange s && ((v =? 2 ^ 63 - 1) || (v =? - 2 ^ 63))
+        then fail c S_LONG_RANGE else Ok v
     end.
 
   Local Open Scope outcome_scope.
@@ -679,13 +690,18 @@ Section Load.
     | (j, v) :: r => if N.eqb (kw_code j) (kw_code k) then Some v else assoc_kw k r
     end.
 
+  Fixpoint mem_text (x : text) (l : list text) : bool :=
+    match l with [] => false | y :: r => text_eqb x y || mem_text x r end.
+
   Fixpoint parse_strings (n : nat) (c : cfg) (toks : list token) (acc : list text) : outcome (list text * list token) :=
     match n with
     | O => Hang S_HANG_FUEL
     | S n' =>
         ' (t, r) <- next toks ;;
         match t with
-        | Some (TStr s) => parse_strings n' c r (acc ++ [s])
+        | Some (TStr s) =>
+            (* reduced at once (no look-ahead): the duplicate test of F34 runs when the string is read *)
+            if plugnames_checked && mem_text s acc then fail c S_DUP_PLUGNAME else parse_strings n' c r (acc ++ [s])
         | Some TEnd => match acc with [] => fail c S_PARSE | _ => Ok (acc, r) end
         | _ => fail c S_PARSE
         end
@@ -861,9 +877,6 @@ Section Load.
         end
     end.
 
-  Fixpoint mem_text (x : text) (l : list text) : bool :=
-    match l with [] => false | y :: r => text_eqb x y || mem_text x r end.
-
   Fixpoint add_nodes (have : list text) (nodes : list text) : option (list text) :=
     match nodes with
     | [] => Some have
@@ -1001,13 +1014,14 @@ Section Load.
 End Load.
 
 (* a complete token list (the lexer reached the end of the main file) *)
-Definition load hl_expand regcomp_ok resolves is_chardev (toks : list token) : outcome cfg :=
-  load_stream hl_expand regcomp_ok resolves is_chardev EndEOF toks.
+Definition load hl_expand regcomp_ok resolves is_chardev stale_erange (toks : list token) : outcome cfg :=
+  load_stream hl_expand regcomp_ok resolves is_chardev stale_erange EndEOF toks.
 
 (* conf_init(file): lexer and parser interleaved as in the C (the parser may exit before the lexer's error) *)
-Definition conf_init hl_expand regcomp_ok resolves is_chardev (files : text -> option text) (main : text) : outcome cfg :=
+Definition conf_init hl_expand regcomp_ok resolves is_chardev stale_erange (files : text -> option text) (main : text)
+  : outcome cfg :=
   let '(toks, e) := lex_all files main in
-  load_stream hl_expand regcomp_ok resolves is_chardev e toks.
+  load_stream hl_expand regcomp_ok resolves is_chardev stale_erange e toks.
 
 (* summary used by the driver *)
 Definition outcome_class {A} (o : outcome A) : N * nat :=
